@@ -24,7 +24,7 @@ Print Assumptions deploy_only_full_live.
 (* ---- unhealthy_leaves_running: whenever the job has looked at its cluster (any registration, deregistration or
    deployment ending) and is Running, every member of its assembly is registered and within the deadline ... *)
 Theorem unhealthy_leaves_running : forall c l o s1,
-  pre (exec c l) o = Some s1 ->
+  pre c (exec c l) o = Some s1 ->
   let s' := fst (step c (exec c l) o) in
   stat s' = Running ->
   (forall n, In n (a_ops s') -> In n (ops s') /\ live_in c s' (true, n)) /\
@@ -47,7 +47,7 @@ Print Assumptions deregistered_runner_pauses.
 Theorem expired_operator_pauses : forall c l n t o s1,
   stat (exec c l) = Running -> In n (a_ops (exec c l)) ->
   hb_get (true, n) (hb (exec c l)) = Some t -> t + deadline c < now (exec c l) ->
-  pre (exec c l) o = Some s1 -> o <> ORegOp n ->
+  pre c (exec c l) o = Some s1 -> o <> ORegOp n ->
   stat (fst (step c (exec c l) o)) = Paused.
 Proof. exact expired_operator_pauses_proof. Qed.
 Print Assumptions expired_operator_pauses.
@@ -55,14 +55,24 @@ Print Assumptions expired_operator_pauses.
 Theorem expired_runner_pauses : forall c l n t o s1,
   stat (exec c l) = Running -> In n (a_srs (exec c l)) ->
   hb_get (false, n) (hb (exec c l)) = Some t -> t + deadline c < now (exec c l) ->
-  pre (exec c l) o = Some s1 -> o <> ORegSr n ->
+  pre c (exec c l) o = Some s1 -> o <> ORegSr n ->
   stat (fst (step c (exec c l) o)) = Paused.
 Proof. exact expired_runner_pauses_proof. Qed.
 Print Assumptions expired_runner_pauses.
 
-(* StartCheckpoint goes nowhere unless the job is Running, and then to the runners of its assembly *)
-Theorem tick_only_running : forall c s,
-  o_started (snd (step c s OTick)) <> [] -> stat s = Running /\ o_started (snd (step c s OTick)) = a_srs s.
+(* the checkpoint ticker (created by the "running" task of every successful start, stopped by every pause) is alive
+   exactly while the job is Running: in particular it IS armed in every Running state, after any number of recoveries *)
+Theorem ticker_armed_iff_running : forall c l,
+  q_ticker_once (qk c) = false -> (ticker (exec c l) = 1 <-> stat (exec c l) = Running).
+Proof. exact ticker_armed_iff_running_proof. Qed.
+Print Assumptions ticker_armed_iff_running.
+
+(* a tick (the harness ticks at any time; only a ticker that is alive fires) sends StartCheckpoint nowhere unless the job
+   is Running, and then to the runners of its assembly *)
+Theorem tick_only_running : forall c l,
+  q_ticker_once (qk c) = false ->
+  o_started (snd (step c (exec c l) OTick)) <> [] ->
+  stat (exec c l) = Running /\ o_started (snd (step c (exec c l) OTick)) = a_srs (exec c l).
 Proof. exact tick_only_running_proof. Qed.
 Print Assumptions tick_only_running.
 
@@ -84,7 +94,7 @@ Proof. exact splitter_resumes_from_deployed_checkpoint_proof. Qed.
 Print Assumptions splitter_resumes_from_deployed_checkpoint.
 
 Theorem redeploy_when_enough : forall c l o s1,
-  pre (exec c l) o = Some s1 -> stat s1 = Init \/ stat s1 = Paused ->
+  pre c (exec c l) o = Some s1 -> stat s1 = Init \/ stat s1 = Paused ->
   let s' := fst (step c (exec c l) o) in
   (stat s' = Starting /\ exists d, o_deps (snd (step c (exec c l) o)) = [d]) \/
   (stat s' = stat s1 /\ ((length (ops s') < wc c)%nat \/ (length (srs s') < wc c)%nat)).
@@ -102,10 +112,11 @@ Print Assumptions published_is_newer.
 (* ---- checkpoints_resume (repaired code): after ANY history that leaves the job Running - whatever failed before,
    during a deployment or with a checkpoint OR SAVEPOINT in flight (the histories contain OSavepoint: a requested
    savepoint and a periodic checkpoint upgraded to one are pending snapshots like any other) - a tick, and equally a
-   savepoint request, starts a fresh checkpoint on the runners of the running assembly, and the acks of its members, in
+   savepoint request, starts a fresh checkpoint on the runners of the running assembly (the tick acts only through a
+   ticker that is alive: the model's OTick is a no-op otherwise, so the statement includes that the ticker is armed), and the acks of its members, in
    any order, are all accepted and publish it. *)
 Theorem checkpoints_resume : forall c l acks starter,
-  q_keep_pending (qk c) = false -> q_splitters_accumulate (qk c) = false -> (0 < wc c)%nat ->
+  q_keep_pending (qk c) = false -> q_splitters_accumulate (qk c) = false -> q_ticker_once (qk c) = false -> (0 < wc c)%nat ->
   starter = OTick \/ starter = OSavepoint ->
   let s := exec c l in
   stat s = Running -> pend (sto s) = None ->
@@ -168,7 +179,7 @@ Print Assumptions operator_slot_resumes.
 (* ---- the code before the repairs violates checkpoints_resume (D18a, D30, D18b): computed witnesses, each
    replayed on the implementation by corpus/job/*.json *)
 Theorem checkpoints_resume_refuted_keep_pending :
-  let c := cfg_of (MkQuirks true false false false) in
+  let c := cfg_of (MkQuirks true false false false false) in
   let s := exec c hist_d18 in
   stat s = Running /\ a_ops s = [1] /\ a_srs s = [0] /\
   forall k, let s' := fst (run c s (repeat OTick k ++ [OAckOp 1 1; OAckSr 0 1; OAckOp 1 2; OAckSr 0 2; OTick])) in
@@ -177,7 +188,7 @@ Proof. exact checkpoints_resume_refuted_keep_pending_proof. Qed.
 Print Assumptions checkpoints_resume_refuted_keep_pending.
 
 Theorem checkpoints_resume_refuted_splitters :
-  let c := cfg_of (MkQuirks false true false false) in
+  let c := cfg_of (MkQuirks false true false false false) in
   let s := exec c hist_d30 in
   stat s = Running /\ a_ops s = [1] /\ a_srs s = [0] /\ pend (sto s) = None /\
   map o_res (snd (run c s [OTick; OAckOp 1 2; OAckSr 0 2])) = [0; 0; 2] /\
@@ -188,7 +199,7 @@ Print Assumptions checkpoints_resume_refuted_splitters.
 (* seeded C15-3 (an abort that spares savepoints): with a requested savepoint, or a checkpoint upgraded to one, in flight
    when the operator leaves, the new assembly runs but ticks start nothing, savepoint requests fail, and no ack completes anything *)
 Theorem checkpoints_resume_refuted_keep_savepoint :
-  let c := cfg_of (MkQuirks false false false true) in
+  let c := cfg_of (MkQuirks false false false true false) in
   forall h, h = hist_sp_a \/ h = hist_sp_b ->
   let s := exec c h in
   stat s = Running /\ a_ops s = [1] /\ a_srs s = [0] /\
@@ -196,6 +207,15 @@ Theorem checkpoints_resume_refuted_keep_savepoint :
   completed (sto (fst (run c s [OAckOp 1 1; OAckSr 0 1; OAckOp 1 2; OAckSr 0 2]))) = 0.
 Proof. exact checkpoints_resume_refuted_keep_savepoint_proof. Qed.
 Print Assumptions checkpoints_resume_refuted_keep_savepoint.
+
+(* seeded C15r2-1 (ticker created once only): after the first recovery the job is Running with a stopped ticker *)
+Theorem checkpoints_resume_refuted_ticker_once :
+  let c := cfg_of (MkQuirks false false false false true) in
+  let s := exec c hist_tk in
+  stat s = Running /\ a_ops s = [1] /\ a_srs s = [0] /\ pend (sto s) = None /\ completed (sto s) = 1 /\
+  ticker s = 2 /\ step c s OTick = (s, mk_obs s []).
+Proof. exact checkpoints_resume_refuted_ticker_once_proof. Qed.
+Print Assumptions checkpoints_resume_refuted_ticker_once.
 
 Theorem operator_slot_refuted :
   let o1 := fst (oper_barriers (oper_deploy original (MkOper [] None) [0; 1]) [0] 4) in
